@@ -59,6 +59,9 @@ var probes = map[string]bool{
 	"Raft.onSnapshotTaken":          true,
 	"Raft.compactLog":               true,
 	"candidate.startElection":       true,
+	"candidate.onVoteResult":        true,
+	"connPool.getConn":              true,
+	"connPool.returnConn":           true,
 	"replication.onAppendEntriesResp": true,
 }
 
@@ -180,7 +183,7 @@ func main() {
 		Dir:        *repo,
 		Tests:      true,
 		BuildFlags: []string{"-modfile=" + modfile, "-overlay=" + pre, "-tags=verif"},
-		Env:        append(os.Environ(), "GOFLAGS=-mod=mod", "GOPROXY=off", "GOSUMDB=off", "GOTOOLCHAIN=local"),
+		Env:        append(os.Environ(), "GOFLAGS=-mod=mod", "GOPROXY=off", "GOSUMDB=off", "GOTOOLCHAIN=local", "PATH=/opt/veriftools/go1.26.8/bin:"+os.Getenv("PATH")),
 	}
 	cfg.Overlay = map[string][]byte{}
 	for _, hfs := range harnessFiles {
